@@ -369,7 +369,8 @@ funcalloc(struct func *f, struct decl *d)
 	assert(!d->type->incomplete);
 	calcvla(f, d->type);
 	end = f->end;
-	if (d->type->size) {
+	if (d->type->size || !(d->type->prop & PROPVM)) {
+		/* constant size, possibly zero (zero-length array, struct without storage) */
 		f->end = f->start;
 		v = mkintconst(d->type->size);
 	} else {
